@@ -150,6 +150,15 @@ func c11Decode(format string, data []byte) (out []byte, err error, proto string,
 			return
 		}
 		out, err, proto = readAll(rd, 1000, 64<<20)
+		// the outcome of each call is data, end of stream or an error value: also for calls
+		// issued after the first error / end of stream
+		buf := make([]byte, 16)
+		for i := 0; i < 3 && proto == ""; i++ {
+			n, _ := rd.Read(buf[:(i*7)%16+1])
+			if n > (i*7)%16+1 {
+				proto = "Read after the final status returned n > len(p)"
+			}
+		}
 	})
 	return
 }
@@ -168,6 +177,15 @@ func c11Gen() map[string][]byte {
 		"eos-in-the-middle":         append(append(append([]ref.Op(nil), base...), ref.Op{Kind: ref.OpEOS}), base...),
 		"rep3-beyond-window":        {{Kind: ref.OpLit, Byte: 'x'}, {Kind: ref.OpRep3, Len: 2}, {Kind: ref.OpMatch, Len: 2, Dist: 3}},
 		"dist-equals-dict-boundary": append(append([]ref.Op(nil), base...), ref.Op{Kind: ref.OpMatch, Len: 2, Dist: 4097}),
+	}
+	// distances beyond the declared dictionary but inside the total decoded length, after
+	// the 4 KiB window has wrapped more than once
+	long := []ref.Op{{Kind: ref.OpLit, Byte: 'x'}, {Kind: ref.OpLit, Byte: 'y'}, {Kind: ref.OpLit, Byte: 'z'}}
+	for n := 3; n < 9000; n += 250 {
+		long = append(long, ref.Op{Kind: ref.OpMatch, Len: 250, Dist: 3})
+	}
+	for _, d := range []uint32{4097, 4200, 5000, 8999} {
+		bad[fmt.Sprintf("dist-%d-beyond-4KiB-dict-after-wrap", d)] = append(append([]ref.Op(nil), long...), ref.Op{Kind: ref.OpMatch, Len: 273, Dist: d}, ref.Op{Kind: ref.OpLit, Byte: 'q'})
 	}
 	for name, ops := range bad {
 		// LZMA2 chunk
